@@ -125,8 +125,32 @@ def lr1_not_lalr(rng, idx):
     splitting is needed), with random decoration: the construction algorithms
     only differ on such grammars"""
     a, b, c, d, e = TS[0], TS[1], TS[2], TS[3], TS[4]
-    fam = rng.randrange(4)
+    fam = rng.randrange(6)
     nts = ["S", "A", "B"]
+    if fam >= 4:
+        # k contexts x m items over a common body, follow tokens arranged as a Latin square:
+        # in each context the items have distinct follows (LR(1)), across contexts every item has
+        # every follow (merging the contexts gives reduce/reduce conflicts)
+        k = rng.choice([2, 3])
+        m = rng.choice([2, 3])
+        pre = TS[:k]
+        fol = TS[:m] if rng.random() < 0.5 else TS[1:m + 1]
+        items = NTS[1:1 + m]
+        body = rng.choice([[e], [e, e], ["C"]])
+        prods = []
+        for i in range(k):
+            for j in range(m):
+                prods.append(("S", [pre[i], items[j], fol[(i + j) % m]]))
+        for j in range(m):
+            prods.append((items[j], list(body) + ([] if j == 0 or rng.random() < 0.7 else [e])))
+        nts = ["S"] + items
+        if body == ["C"]:
+            nts.append("C")
+            prods += [("C", [e]), ("C", [e, "C"])] if rng.random() < 0.5 else [("C", [e])]
+        ts = list(TS)
+        used = [t for t in ts if any(t in r_ for _, r_ in prods)]
+        return {"id": "x%05d" % idx, "ts": used, "nts": nts, "starts": ["S"],
+                "prods": [{"lhs": l, "rhs": list(r_)} for l, r_ in prods]}
     if fam == 0:
         prods = [("S", [a, "A", a]), ("S", [b, "A", b]), ("S", [a, "B", b]), ("S", [b, "B", a]), ("A", [e]), ("B", [e])]
     elif fam == 1:
